@@ -65,9 +65,6 @@ Fixpoint content_of (p : list N) (l : list entry) : list N :=
 Definition in_late_shadow_domain (pm : bytes -> bytes -> bool) (c : cfg) (view : list node) : bool :=
   negb (forallb (fun e : entry => nls_path pm c (st_path (fst e))) (walk_root view)).
 
-(* "dedupe-order-sensitive-includes" *)
-Definition s_dedupe : bytes := [100; 101; 100; 117; 112; 101; 45; 111; 114; 100; 101; 114; 45; 115; 101; 110; 115; 105; 116; 105; 118; 101; 45; 105; 110; 99; 108; 117; 100; 101; 115].
-
 (* the real FollowLinks answer as the harness sends it: (#0 nil? (path ...)) *)
 Definition dec_fl (s : sx) : option (bool * list bytes) :=
   match s with
@@ -75,13 +72,12 @@ Definition dec_fl (s : sx) : option (bool * list bytes) :=
   | _ => None
   end.
 
-(* (list handed to the matcher, list the property reads) from the user's patterns and the targets
-   the IMPLEMENTATION's FollowLinks returned (Model/FilterOpt.v with the targets given) *)
-Definition include_lists (inc : list bytes) (fl : option (bool * list bytes)) : list bytes * list bytes :=
+(* the list the property reads (= the list handed to the matcher, Model/FilterOpt.v): the user's
+   patterns in order, then the targets the IMPLEMENTATION's FollowLinks returned *)
+Definition stated_list (inc : list bytes) (fl : option (bool * list bytes)) : list bytes :=
   match fl with
-  | Some (false, ts) =>
-    (match FollowLinks.dedupe_paths (inc ++ ts) with Some l => l | None => [] end, inc ++ ts)
-  | _ => (inc, inc)
+  | Some (false, ts) => inc ++ ts
+  | _ => inc
   end.
 
 Definition cfg_dom (pm : bytes -> bytes -> bool) (c : cfg) (view : list node) : bool :=
@@ -112,30 +108,24 @@ Definition run_1102 (input impl : sx) : sx :=
                                         if announced_reg p then opened && same else negb opened) opens in
       (* the announced view is the reference-filtered source: reset_spec of C10's naive reference
          for the list the property reads (user patterns in order, then the follow targets) *)
-      let '(shadow, ref_ok, dedupe_explains) :=
+      let '(shadow, ref_ok) :=
         match sx_list dec_pentry pt, dec_raws inc, dec_raws exc with
         | Some tbl, Some ri, Some re' =>
           let pm := table_pmatch tbl in
-          let '(la, ls) := include_lists ri (match rest with _ :: _ => dec_fl fls | [] => None end) in
-          match mk_cfg la re', mk_cfg ls re' with
-          | Some ca, Some cs =>
-            let sh := in_late_shadow_domain pm ca view || in_late_shadow_domain pm cs view in
-            let judged := wf_source view && source_links_ok view && cfg_dom pm ca view && cfg_dom pm cs view in
-            let want (c : cfg) := enc_stats (reset_spec (reference (keep_naive pm c) id_map view)) in
-            let got := enc_stats announced in
-            (sh, negb judged || sx_eqb (want cs) got,
-             judged && negb (list_bytes_eqb la ls) && sx_eqb (want ca) got)
-          | _, _ => (false, true, false)
+          let ls := stated_list ri (match rest with _ :: _ => dec_fl fls | [] => None end) in
+          match mk_cfg ls re' with
+          | Some cs =>
+            let sh := in_late_shadow_domain pm cs view in
+            let judged := wf_source view && source_links_ok view && cfg_dom pm cs view in
+            (sh, negb judged || sx_eqb (enc_stats (reset_spec (reference (keep_naive pm cs) id_map view))) (enc_stats announced))
+          | None => (false, true)
           end
-        | _, _, _ => (false, true, false)
+        | _, _, _ => (false, true)
         end in
       let code := (if ok_stream then 0 else 1) + (if success then 0 else 2) + (if conv then 0 else 4)
                   + (if opens_ok then 0 else 8) + (if ref_ok then 0 else 16) in
-      (* walk and Open may only disagree (and a file may only arrive empty) in the late-shadow domain;
-         the announced view may only differ from the reference when dedupePaths dropped a pattern *)
-      let s := if shadow && ok_stream && success then [sig s_late_shadow]
-               else if negb ref_ok && dedupe_explains && ok_stream && success && conv && opens_ok then [sig s_dedupe]
-               else [] in
+      (* walk and Open may only disagree (and a file may only arrive empty) in the late-shadow domain *)
+      let s := if shadow && ok_stream && success then [sig s_late_shadow] else [] in
       verdict impl impl (ok_stream && success && conv && opens_ok && ref_ok)
               (SL (s ++ SN code :: (if success then converged_diag false [] src dest else [])))%N
     | _, _, _, _ => v_malformed
@@ -229,9 +219,7 @@ Definition run_1103 (input impl : sx) : sx :=
      S2 calls = reset_spec of the naive reference for the STATED list (user patterns in order ++ the
         targets the real FollowLinks returned): the view is what the include list says;
      S3 walk and Open agree on every regular file of the source (no map function);
-   S2/S3 judged outside the late-shadow / unsafe-literal domains of both lists.  When S2 fails
-   although the model (which transcribes dedupePaths) explains the calls and dedupePaths dropped a
-   pattern: signature dedupe-order-sensitive-includes. *)
+   S2/S3 judged outside the late-shadow / unsafe-literal domains of that list. *)
 Definition run_1104 (input impl : sx) : sx :=
   match input with
   | SL [v; inc; exc; fol] =>
@@ -260,12 +248,12 @@ Definition run_1104 (input impl : sx) : sx :=
                            SL (map (fun e : entry => SL [SB (st_path (fst e)); of_bool (filter_open pm c (st_path (fst e)))]) regs);
                            of_optnat (run_validator (items sv)); of_optnat (hardlink_check sv)] in
           let impl' := SL [SN 0; fls; iexc; calls; ops; vv; hv] in
-          let '(la, ls) := include_lists incr_ (match follow with [] => None | _ => dec_fl fls end) in
-          match mk_cfg la excr, mk_cfg ls excr with
-          | Some ca, Some cs =>
+          let ls := stated_list incr_ (match follow with [] => None | _ => dec_fl fls end) in
+          match mk_cfg ls excr with
+          | Some cs =>
             let src_ok := wf_source view && source_links_ok view in
-            let shadow := in_late_shadow_domain pm ca view || in_late_shadow_domain pm cs view in
-            let dom := cfg_dom pm ca view && cfg_dom pm cs view in
+            let shadow := in_late_shadow_domain pm cs view in
+            let dom := cfg_dom pm cs view in
             let s1 := sx_eqb (of_optnat (run_validator (items icalls))) (SL [])
                       && sx_eqb (of_optnat (hardlink_check icalls)) (SL [])
                       && sx_eqb vv (SL []) && sx_eqb hv (SL []) in
@@ -280,11 +268,9 @@ Definition run_1104 (input impl : sx) : sx :=
             let code := (if j1 then 0 else 1) + (if j2 then 0 else 2) + (if j3 then 0 else 4) in
             if src_ok && shadow && negb s3 && j1
             then verdict model impl' false (SL [sig s_late_shadow; SN 16])%N
-            else if negb j2 && j1 && j3 && negb (list_bytes_eqb la ls) && sx_eqb (want ca) calls
-            then verdict model impl' false (SL [sig s_dedupe; SN 32])%N
             else verdict model impl' (j1 && j2 && j3)
                          (SL [SN code; of_bool src_ok; of_bool shadow; of_bool dom])%N
-          | _, _ => v_malformed
+          | None => v_malformed
           end
         | Some _, Some _, Some _, None => v_diff (SL [SN 65535])
         | _, _, _, _ => v_malformed
